@@ -8,12 +8,12 @@ prop=${2:-$(echo $name | cut -d- -f1)}
 if ! git -C /repo diff --quiet; then echo "refusing: /repo has uncommitted changes"; exit 3; fi
 if ! git -C /repo apply /verif/seeded/$name/patch.diff 2>/tmp/seedtest.err; then
   # patches are relative to the pinned commit; try a 3-way apply on top of later fix: commits
-  if ! git -C /repo apply -3 /verif/seeded/$name/patch.diff 2>>/tmp/seedtest.err; then echo "$name: PATCH-DOES-NOT-APPLY"; git -C /repo checkout -- . ; git -C /repo reset -q; exit 4; fi
+  if ! git -C /repo apply -3 /verif/seeded/$name/patch.diff 2>>/tmp/seedtest.err; then echo "$name: PATCH-DOES-NOT-APPLY"; git -C /repo reset -q --hard HEAD; exit 4; fi
 fi
 cp evidence/$prop.json /tmp/seedtest.evidence.$prop.json 2>/dev/null
 VERIF_DIR=/verif bin/rtpverify check $prop > /tmp/seedtest.$name.out 2>&1
 rc=$?
 cp /tmp/seedtest.evidence.$prop.json evidence/$prop.json 2>/dev/null
-git -C /repo reset -q; git -C /repo checkout -- .
+git -C /repo reset -q --hard HEAD
 if [ $rc -eq 1 ]; then echo "$name: DETECTED by $prop ($(grep -c '^VIOLATION' /tmp/seedtest.$name.out) violation lines)"; grep '^VIOLATION' /tmp/seedtest.$name.out | sed 's/replay=[^ ]* //' | cut -c1-220 | head -4
 elif [ $rc -eq 0 ]; then echo "$name: MISSED by $prop"; else echo "$name: ENGINE-ERROR rc=$rc"; grep ENGINE-ERROR /tmp/seedtest.$name.out | head -3; fi
